@@ -88,10 +88,171 @@ class Desugar(ast.NodeTransformer):
                 tg = s.targets if isinstance(s, ast.Assign) else [s.target]
                 if len(tg) == 1 and isinstance(tg[0], ast.Name) and counts.get(tg[0].id) == 1 and self._table(s.value) is not None:
                     self.module_tables[tg[0].id] = s.value
+        # module-level generator functions that can be expanded at a `for` over a call of them
+        self.generators: Dict[str, ast.FunctionDef] = {}
+        for s in module_tree.body:
+            if isinstance(s, ast.FunctionDef) and not s.decorator_list and self._inlinable_generator(s):
+                self.generators[s.name] = s
         self.class_tables: List[Dict[str, ast.expr]] = []
         self.attr_stores = {x.attr for x in ast.walk(module_tree) if isinstance(x, ast.Attribute) and isinstance(x.ctx, (ast.Store, ast.Del))}
         self.func_stack: List[ast.AST] = []
         self.count = {"match": 0, "unrolled": 0, "getattr": 0, "walrus": 0}
+
+    # ------------------------------------------------------------------ generators
+    @staticmethod
+    def _inlinable_generator(fn: ast.FunctionDef) -> bool:
+        a = fn.args
+        if a.vararg or a.kwarg:
+            return False
+        yields = [x for x in ast.walk(fn) if isinstance(x, ast.Yield)]
+        if not yields or any(isinstance(x, (ast.YieldFrom, ast.Return, ast.FunctionDef, ast.AsyncFunctionDef, ast.Lambda, ast.ClassDef, ast.Global, ast.Nonlocal, ast.Await))
+                             for b in fn.body for x in ast.walk(b)):
+            return False
+        stmts = {id(x.value) for b in fn.body for x in ast.walk(b) if isinstance(x, ast.Expr)}
+        if any(id(y) not in stmts or y.value is None for y in yields):
+            return False                       # a yield whose sent value is used, or a bare yield
+        if any(isinstance(x, ast.Name) and x.id == fn.name for b in fn.body for x in ast.walk(b)):
+            return False                       # recursive
+        return True
+
+    def _generator_call(self, e: ast.expr) -> Optional[ast.FunctionDef]:
+        if isinstance(e, ast.Call) and isinstance(e.func, ast.Name) and e.func.id in self.generators and \
+                not any(isinstance(a, ast.Starred) for a in e.args) and not any(k.arg is None for k in e.keywords):
+            fn = self.generators[e.func.id]
+            if self.func_stack and self.func_stack[-1] is fn:
+                return None
+            return fn
+        return None
+
+    def _expand_generator(self, fn: ast.FunctionDef, call: ast.Call, target: ast.expr, body: List[ast.stmt], at: ast.stmt) -> Optional[List[ast.stmt]]:
+        """the statements of `for target in fn(args): body` with the generator's code in place of the iteration protocol"""
+        self.tmp += 1
+        k = self.tmp
+        a = fn.args
+        pos = a.posonlyargs + a.args
+        params = [p.arg for p in pos] + [p.arg for p in a.kwonlyargs]
+        bound: Dict[str, ast.expr] = {}
+        for i, arg in enumerate(call.args):
+            if i >= len(pos):
+                return None
+            bound[pos[i].arg] = arg
+        for kw in call.keywords:
+            if kw.arg not in params or kw.arg in bound:
+                return None
+            bound[kw.arg] = kw.value
+        defaults = {p.arg: d for p, d in zip(pos[len(pos) - len(a.defaults):], a.defaults)} if a.defaults else {}
+        defaults.update({p.arg: d for p, d in zip(a.kwonlyargs, a.kw_defaults) if d is not None})
+        gbody = [b for b in fn.body if not (isinstance(b, ast.Expr) and isinstance(b.value, ast.Constant))]
+        stores = {x.id for b in gbody for x in ast.walk(b) if isinstance(x, ast.Name) and isinstance(x.ctx, (ast.Store, ast.Del))}
+        pre: List[ast.stmt] = []
+        mapping: Dict[str, ast.expr] = {}
+        for p_ in params:
+            val = bound.get(p_, defaults.get(p_))
+            if val is None:
+                return None
+            if p_ not in stores and _simple(val):
+                mapping[p_] = val
+            else:
+                nm = f"{p_}__g{k}"
+                pre.append(ast.copy_location(ast.Assign(targets=[ast.Name(id=nm, ctx=ast.Store())], value=copy.deepcopy(val)), at))
+                mapping[p_] = ast.Name(id=nm, ctx=ast.Load())
+        rename = {n: f"{n}__g{k}" for n in stores}
+        for p_ in params:
+            if p_ in stores:
+                rename[p_] = f"{p_}__g{k}"
+
+        outer = self
+
+        class R(ast.NodeTransformer):
+            def visit_Name(self, n: ast.Name):
+                if n.id in rename:
+                    return ast.copy_location(ast.Name(id=rename[n.id], ctx=n.ctx), n)
+                if isinstance(n.ctx, ast.Load) and n.id in mapping:
+                    return ast.copy_location(copy.deepcopy(mapping[n.id]), n)
+                return n
+
+            def visit_Expr(self, n: ast.Expr):
+                if isinstance(n.value, ast.Yield):
+                    val = self.visit(copy.deepcopy(n.value.value))
+                    asg = ast.copy_location(ast.Assign(targets=[copy.deepcopy(target)], value=val), n)
+                    return [asg] + [copy.deepcopy(b) for b in body]
+                return self.generic_visit(n)
+        out = pre + [x for b in gbody for x in (lambda r: r if isinstance(r, list) else [r])(R().visit(copy.deepcopy(b)))]
+        for x in out:
+            ast.copy_location(x, at) if not hasattr(x, "lineno") else None
+            ast.fix_missing_locations(x)
+        self.count["generator"] = self.count.get("generator", 0) + 1
+        return out
+
+    def _comprehension_loop(self, value: ast.expr, at: ast.stmt):
+        """(list name init statement, for statement, name) for  [E for v in gen(...)] / list(gen(...)) ; None otherwise"""
+        elt = None
+        if isinstance(value, ast.ListComp) and len(value.generators) == 1 and not value.generators[0].is_async:
+            g = value.generators[0]
+            it, tgt, ifs, elt = g.iter, g.target, g.ifs, value.elt
+        elif isinstance(value, ast.Call) and isinstance(value.func, ast.Name) and value.func.id == "list" and len(value.args) == 1 and not value.keywords:
+            it, ifs = value.args[0], []
+            self.tmp += 1
+            tgt = ast.Name(id=f"__item{self.tmp}", ctx=ast.Store())
+            elt = ast.Name(id=tgt.id, ctx=ast.Load())
+        else:
+            return None
+        if self._generator_call(it) is None:
+            return None
+        return it, tgt, ifs, elt
+
+    def _list_building(self, listname: str, parts, at: ast.stmt) -> List[ast.stmt]:
+        it, tgt, ifs, elt = parts
+        app: ast.stmt = ast.Expr(value=ast.Call(func=ast.Attribute(value=ast.Name(id=listname, ctx=ast.Load()), attr="append", ctx=ast.Load()), args=[elt], keywords=[]))
+        for c in reversed(ifs):
+            app = ast.If(test=c, body=[app], orelse=[])
+        init = ast.Assign(targets=[ast.Name(id=listname, ctx=ast.Store())], value=ast.List(elts=[], ctx=ast.Load()))
+        loop = ast.For(target=tgt, iter=it, body=[app], orelse=[])
+        out: List[ast.stmt] = []
+        for x in (init, loop):
+            ast.copy_location(x, at)
+            ast.fix_missing_locations(x)
+            r = self.visit(x)
+            out.extend(r if isinstance(r, list) else [r])
+        return out
+
+    def visit_Assign(self, node: ast.Assign):
+        if len(node.targets) == 1 and isinstance(node.targets[0], ast.Tuple) and isinstance(node.value, ast.Tuple) and self.func_stack and \
+                len(node.targets[0].elts) == len(node.value.elts) and all(isinstance(t_, ast.Name) for t_ in node.targets[0].elts) and \
+                not any(isinstance(x, ast.Starred) for x in node.value.elts):
+            # a, b = (x, y)  ->  a = x; b = y   when no right-hand side mentions a target
+            names = {t_.id for t_ in node.targets[0].elts}
+            if not any(isinstance(x, ast.Name) and x.id in names for v in node.value.elts for x in ast.walk(v)):
+                out: List[ast.stmt] = []
+                for t_, v in zip(node.targets[0].elts, node.value.elts):
+                    a_ = ast.copy_location(ast.Assign(targets=[t_], value=v), node)
+                    ast.fix_missing_locations(a_)
+                    r = self.visit(a_)
+                    out.extend(r if isinstance(r, list) else [r])
+                return out
+        if len(node.targets) == 1 and isinstance(node.targets[0], ast.Name) and self.func_stack:
+            parts = self._comprehension_loop(node.value, node)
+            if parts is not None:
+                return self._list_building(node.targets[0].id, parts, node)
+        return self.generic_visit(node)
+
+    def visit_AnnAssign(self, node: ast.AnnAssign):
+        if node.value is not None and isinstance(node.target, ast.Name) and self.func_stack:
+            parts = self._comprehension_loop(node.value, node)
+            if parts is not None:
+                return self._list_building(node.target.id, parts, node)
+        return self.generic_visit(node)
+
+    def visit_Return(self, node: ast.Return):
+        if node.value is not None and self.func_stack:
+            parts = self._comprehension_loop(node.value, node)
+            if parts is not None:
+                self.tmp += 1
+                nm = f"__list{self.tmp}"
+                ret = ast.copy_location(ast.Return(value=ast.Name(id=nm, ctx=ast.Load())), node)
+                ast.fix_missing_locations(ret)
+                return self._list_building(nm, parts, node) + [ret]
+        return self.generic_visit(node)
 
     # ------------------------------------------------------------------ tables
     @staticmethod
@@ -245,6 +406,16 @@ class Desugar(ast.NodeTransformer):
 
     # ------------------------------------------------------------------ constant-table loops
     def visit_For(self, node: ast.For):
+        gen = self._generator_call(node.iter) if not node.orelse and self.func_stack else None
+        if gen is not None and not _loop_level(node.body, (ast.Break, ast.Continue)) and \
+                not any(isinstance(x, (ast.Yield, ast.YieldFrom)) for b in node.body for x in ast.walk(b)):
+            exp = self._expand_generator(gen, node.iter, node.target, node.body, node)
+            if exp is not None:
+                res: List[ast.stmt] = []
+                for x in exp:
+                    r = self.visit(x)
+                    res.extend(r if isinstance(r, list) else [r])
+                return res
         rows = self._resolve_table(node.iter) if not node.orelse else None
         ok = rows is not None
         names: List[str] = []
